@@ -16,6 +16,9 @@ from harness.common import engine_run, coq_crosscheck, fq
 
 TARGETS = ["theories/Props/C06.vo", "theories/Proofs/GenEq_MetricTable.vo", "theories/Proofs/GenEq_MetricFormulas.vo"]
 GENEQ = {"theories/Proofs/GenEq_MetricTable.vo": "MetricTable", "theories/Proofs/GenEq_MetricFormulas.vo": "MetricFormulas"}
+# T1 units added after round 4 of the seeded changes
+TARGETS = TARGETS + ["theories/Proofs/GenEq_MetricCall.vo"]
+GENEQ = dict(GENEQ, **{"theories/Proofs/GenEq_MetricCall.vo": "MetricCall"})
 ALLOWED_AXIOMS = []
 RULE = ("cases = (metric, label selection, dtype, array pair); exhaustive layer: all pairs of maps over {0,1,2} on "
         "2x2/1x4 (thorough) or a seeded slice (quick) x ref label in {1,2,3} x pred selection (int, list, absent label); "
